@@ -23,9 +23,17 @@ Proof. exact ConnExact.c01_routes_to_registered. Qed.
 Theorem c01_items_exact : forall (f : fixes) (evs : list ev) (o : nat) (c : cop), getop (run f evs) o = Some c -> is_search c -> o_items c = map fst (filter (to o) (processed (run f evs))).
 Proof. exact ConnExact.c10_items_exact. Qed.
 
+Theorem c01_refuted_F29 : option_map o_status (getop (run all_but_29 h29) 0%nat) = Some (COk (Some (mkResp 1 RInter 4))) /\ map snd (processed (run all_but_29 h29)) = [Some 0%nat; None].
+Proof. exact Conn.c01_refuted_F29. Qed.
+
+Theorem c01_repaired_F29 : option_map o_status (getop (run repaired h29) 0%nat) = Some (COk (Some (mkResp 1 ROther 5))) /\ map snd (processed (run repaired h29)) = [None; Some 0%nat].
+Proof. exact Conn.c01_repaired_F29. Qed.
+
 Print Assumptions c01_routed_by_id.
 Print Assumptions c01_in_order.
 Print Assumptions c01_no_gaps.
 Print Assumptions c01_unmatched_noop.
 Print Assumptions c01_routes_to_registered.
 Print Assumptions c01_items_exact.
+Print Assumptions c01_refuted_F29.
+Print Assumptions c01_repaired_F29.
